@@ -95,7 +95,7 @@ var c18Methods = []string{"GET", "POST", "PUT", "PATCH", "DELETE", "OPTIONS", "H
 var c18CTypes = []string{
 	"application/x-www-form-urlencoded", "application/x-www-form-urlencoded; charset=utf-8",
 	"multipart/form-data; boundary=BOUNDARY",
-	"application/json", "application/json; charset=utf-8",
+	"application/json", "application/json; charset=utf-8", "application/json; charset=utf-8; profile=x", "application/json;charset=UTF-8;", `application/json; charset="utf-8"`,
 	"application/xml", "text/xml", "text/xml; charset=utf-8",
 	"", "text/plain", "application/octet-stream", "text/html", "application/x-yaml", "image/png",
 	// unsupported types whose sub-type is spelled like the name of a registered binder
@@ -887,7 +887,7 @@ var c18Spec = fw.Spec[c18Case]{
 	ID:      "C18",
 	Level:   "model_checking",
 	Workers: 1,
-	Rule: "complete enumeration: decision table 19 method tokens (the nine standard ones, extension methods, other spellings, empty) x 22 Content-Type strings (the unsupported ones include sub-types spelled like registered binder names) x query present/absent, every source carrying a different value; requests with a history (form parsed before the method became body-less / the parsed form edited; a body reader that failed half way before the next binds; a middleware calling one of 14 helpers - FormParams with and without except lists, Post, PostParams, Query, QueryValues, ParseMultipartForm, FormFile, Copy (kept / bound first), a header bind - before the handler binds, x urlencoded / multipart / query x 5 methods); all sequences of <=3 (thorough 4) binds over 6 sources of a struct whose field has a different name in every source's tag; round trip of all values of a struct over int{0,1,-7,2^31} x 9 strings (unicode, separators, markup, quotes) x bool x 4 int slices, 10 equivalent spellings of one XML document and 6 of one JSON document (declaration, comments and processing instructions before and after the root, white space, CDATA, character references, element / key order, escapes, unknown members), and of 15 string lists (one-element lists holding , ; | space brackets included) x 2 notes, through query / urlencoded / multipart / JSON / XML; all byte strings of length <=4 (thorough 5) over 14 bytes as body per format (must not panic; malformed JSON/XML must yield an error); validator on/off reached through every history of <=3 switch operations {ResetValidator, DisableValidator, assign a custom validator, assign nil} x values on both sides of each rule and a completely empty value set; " +
+	Rule: "complete enumeration: decision table 19 method tokens (the nine standard ones, extension methods, other spellings, empty) x 25 Content-Type strings (the unsupported ones include sub-types spelled like registered binder names) x query present/absent, every source carrying a different value; requests with a history (form parsed before the method became body-less / the parsed form edited; a body reader that failed half way before the next binds; a middleware calling one of 14 helpers - FormParams with and without except lists, Post, PostParams, Query, QueryValues, ParseMultipartForm, FormFile, Copy (kept / bound first), a header bind - before the handler binds, x urlencoded / multipart / query x 5 methods); all sequences of <=3 (thorough 4) binds over 6 sources of a struct whose field has a different name in every source's tag; round trip of all values of a struct over int{0,1,-7,2^31} x 9 strings (unicode, separators, markup, quotes) x bool x 4 int slices, 10 equivalent spellings of one XML document and 6 of one JSON document (declaration, comments and processing instructions before and after the root, white space, CDATA, character references, element / key order, escapes, unknown members), and of 15 string lists (one-element lists holding , ; | space brackets included) x 2 notes, through query / urlencoded / multipart / JSON / XML; all byte strings of length <=4 (thorough 5) over 14 bytes as body per format (must not panic; malformed JSON/XML must yield an error); validator on/off reached through every history of <=3 switch operations {ResetValidator, DisableValidator, assign a custom validator, assign nil} x values on both sides of each rule and a completely empty value set; " +
 		"non-trivial = a table row / a round-tripped value / a malformed body",
 	Assume: []string{"media types that merely contain a canonical subtype as a substring (application/jsonp) are outside the alphabet", "runs single-threaded: the validator switch is package-global", "encoding/json and encoding/xml decide what 'malformed' means"},
 	Bounds: func(tier string) map[string]any {
